@@ -24,6 +24,7 @@ import (
 	"fmt"
 	"os"
 	"regexp"
+	"runtime"
 	"sort"
 	"strings"
 	"sync"
@@ -131,8 +132,8 @@ var validName = regexp.MustCompile(`^[A-Za-z_][A-Za-z0-9_]*$`)
 // ---------------------------------------------------------------- executor state
 
 const (
-	quiesceTimeout = 10 * time.Second
-	staleGrace     = 4 * time.Second
+	quiesceTimeout = 6 * time.Second
+	staleGrace     = 3 * time.Second
 	freeLH         = node.Key(0xFFF)
 )
 
@@ -160,17 +161,17 @@ type sim struct {
 	rep       *kit.Report
 	cl        *mock.Cluster
 	nodes     map[int]mock.Node
-	live      table                // the model: channels that exist
-	ever      map[channel.Key]bool // every key that ever existed
-	deleted   table                // deleted channels, with their last metadata
+	live      table                  // the model: channels that exist
+	ever      map[channel.Key]bool   // every key that ever existed
+	deleted   table                  // deleted channels, with their last metadata
 	deletedBy map[channel.Key]string // what removed them: delete | overwrite | failed-request
-	cause     string               // what the request in progress is, for deletedBy
-	opKind    string               // kind of the request in progress
-	slots     map[int]channel.Key  // spec id -> key
-	initMax   map[node.Key]uint32  // largest local key per leaseholder before the history
-	submitted uint32               // specs submitted so far (bounds the counters)
-	exempt    map[string]bool      // "node/key" pairs excluded after a known / tolerated finding
-	gone      []string             // names removed by the latest request (polled by name as well)
+	cause     string                 // what the request in progress is, for deletedBy
+	opKind    string                 // kind of the request in progress
+	slots     map[int]channel.Key    // spec id -> key
+	initMax   map[node.Key]uint32    // largest local key per leaseholder before the history
+	submitted uint32                 // specs submitted so far (bounds the counters)
+	exempt    map[string]bool        // "node/key" pairs excluded after a known / tolerated finding
+	gone      []string               // names removed by the latest request (polled by name as well)
 	mixedDel  bool
 	remote    bool
 }
@@ -199,6 +200,13 @@ func (s *sim) violation(sig, format string, args ...any) error {
 	}
 	if tolerated || s.rep.Known(sig) {
 		s.rep.Class("known:" + sig)
+		// findings after which the model no longer describes the cluster end the case;
+		// the others are excluded pairwise (exempt) and the history goes on
+		for _, p := range []string{"key-reused", "metadata-", "deleted-channel-retrievable", "name-index-stale", "wrong-leaseholder"} {
+			if strings.HasPrefix(sig, p) && !strings.HasPrefix(sig, "metadata-engine-mismatch") {
+				return &stop{}
+			}
+		}
 		return nil
 	}
 	return kit.Fail(sig, format, args...)
@@ -420,7 +428,12 @@ func (s *sim) crossStore(step int, strong bool, countOnly bool) error {
 		if strings.HasSuffix(strongSig, "missing-in-engine") {
 			side = "missing-in-engine"
 		}
-		return s.violation("orphan-after-failed-request/"+s.opKind+"/"+side, format, args...)
+		// The property is stated over successful requests. What a failed request leaves
+		// behind (cesium documents CreateChannel/DeleteChannels as not atomic, and the
+		// service runs the engine step last for that reason) is counted, the pair is
+		// exempted from later comparisons, and the history goes on.
+		s.rep.Class("orphan-after-failed-request/" + s.opKind + "/" + side)
+		return nil
 	}
 	for i := 1; i <= s.sc.N; i++ {
 		eng := s.engine(i)
@@ -627,7 +640,7 @@ func (s *sim) adopt(step int, before, now table, checked map[channel.Key]bool) (
 	for _, k := range now.keys() {
 		if _, ok := before[k]; !ok {
 			if s.ever[k] && !checked[k] {
-				if err := s.violation("key-reused", "step %d: key %d of deleted channel %v is in use again by %v", step, k, s.deleted[k], now[k]); err != nil {
+				if err := s.violation("key-reused/deleted", "step %d: key %d of deleted channel %v is in use again by %v", step, k, s.deleted[k], now[k]); err != nil {
 					return nil, err
 				}
 			}
@@ -673,7 +686,7 @@ func (s *sim) compare(step int, what string, want, got table) error {
 
 // checkNames enforces, with validation on, that the given channels have valid names that no
 // other existing channel has.
-func (s *sim) checkNames(step int, what string, t table, keys []channel.Key) error {
+func (s *sim) checkNames(step int, what string, t table, keys []channel.Key, derived map[channel.Key]bool) error {
 	if s.sc.NoValidate {
 		return nil
 	}
@@ -689,7 +702,14 @@ func (s *sim) checkNames(step int, what string, t table, keys []channel.Key) err
 		}
 		for _, o := range t.keys() {
 			if o != k && t[o].Name == m.Name {
-				if err := s.violation("duplicate-name", "step %d: %s left channels %v and %v with the same name although validation is on", step, what, m, t[o]); err != nil {
+				sig := "duplicate-name/" + what
+				switch {
+				case derived[k] && derived[o]:
+					sig = "duplicate-name/derived-index-twice"
+				case derived[k] || derived[o]:
+					sig = "duplicate-name/derived-index-vs-other"
+				}
+				if err := s.violation(sig, "step %d: %s left channels %v and %v with the same name although validation is on", step, what, m, t[o]); err != nil {
 					return err
 				}
 				break
@@ -741,6 +761,7 @@ func (s *sim) create(step int, op Op) error {
 	want := before.clone()
 	var created []channel.Key
 	inBatch := map[channel.Key]bool{}
+	derived := map[channel.Key]bool{} // results no spec asked for: the index channels of calculated channels
 	process := func(r channel.Channel, sp *Spec) error {
 		k := r.Key()
 		if inBatch[k] {
@@ -749,18 +770,23 @@ func (s *sim) create(step int, op Op) error {
 				s.rep.Class("create-retrieved-existing")
 				return nil
 			}
-			return s.violation("key-reused", "step %d: create returned key %d twice in one batch", step, k)
+			return s.violation("key-reused/batch", "step %d: create returned key %d twice in one batch", step, k)
 		}
 		inBatch[k] = true
 		if _, ok := before[k]; ok {
 			if !op.Retrieve && !op.Overwrite {
-				return s.violation("key-reused", "step %d: create without options returned key %d of existing channel %v for %q", step, k, before[k], r.Name)
+				return s.violation("key-reused/live", "step %d: create without options returned key %d of existing channel %v for %q", step, k, before[k], r.Name)
+			}
+			if before[k].Name != r.Name {
+				// the options resolve names: a result under another channel's key is that key
+				// handed out a second time
+				return s.violation("key-reused/live", "step %d: create returned %q under key %d, which belongs to existing channel %v", step, r.Name, k, before[k])
 			}
 			s.rep.Class("create-retrieved-existing")
 			return nil
 		}
 		if s.ever[k] {
-			if err := s.violation("key-reused", "step %d: new channel %q got key %d, which belonged to deleted channel %v", step, r.Name, k, s.deleted[k]); err != nil {
+			if err := s.violation("key-reused/deleted", "step %d: new channel %q got key %d, which belonged to deleted channel %v", step, r.Name, k, s.deleted[k]); err != nil {
 				return err
 			}
 		}
@@ -834,6 +860,7 @@ func (s *sim) create(step int, op Op) error {
 	for j, r := range chs {
 		if !matched[j] {
 			s.rep.Class("create-derived-channel")
+			derived[r.Key()] = true
 			if err := process(r, nil); err != nil {
 				return err
 			}
@@ -881,7 +908,7 @@ func (s *sim) create(step int, op Op) error {
 	if err != nil {
 		return err
 	}
-	if err := s.checkNames(step, "create", s.live, created); err != nil {
+	if err := s.checkNames(step, "create", s.live, created, derived); err != nil {
 		return err
 	}
 	return s.afterSuccess(step, vanished)
@@ -948,7 +975,7 @@ func (s *sim) rename(step int, op Op) error {
 	if _, err := s.adopt(step, before, got, nil); err != nil {
 		return err
 	}
-	if err := s.checkNames(step, "rename", s.live, renamed); err != nil {
+	if err := s.checkNames(step, "rename", s.live, renamed, nil); err != nil {
 		return err
 	}
 	return s.afterSuccess(step, nil)
@@ -1072,6 +1099,39 @@ func (s *sim) afterFailure(step int, before table, notx bool) error {
 	return s.crossStore(step, false, notx)
 }
 
+// closeCluster closes every node's distribution layer, then every storage layer - what
+// mock.Cluster.Close does, in two phases. In between it waits for the goroutine count to
+// settle: aspen's cluster store flushes its state with an untracked `go FlushSync(...)`
+// (x/kv.Subscriber.Flush), and such a goroutine, when it is scheduled only after the storage
+// layer has been closed, panics the whole process with "pebble: closed". That shutdown race
+// is outside this property; the pause keeps it from killing the test process.
+func (s *sim) closeCluster() {
+	keys := make([]int, 0, len(s.cl.Nodes))
+	for k := range s.cl.Nodes {
+		keys = append(keys, int(k))
+	}
+	sort.Ints(keys)
+	for _, k := range keys {
+		if err := s.cl.Nodes[node.Key(k)].Layer.Close(); err != nil {
+			s.rep.Class("cluster-close-error")
+		}
+	}
+	prev, stable := runtime.NumGoroutine(), 0
+	for t := 0; t < 200 && stable < 3; t++ {
+		time.Sleep(time.Millisecond)
+		if cur := runtime.NumGoroutine(); cur == prev {
+			stable++
+		} else {
+			prev, stable = cur, 0
+		}
+	}
+	for _, k := range keys {
+		if err := s.cl.Nodes[node.Key(k)].Storage.Close(); err != nil {
+			s.rep.Class("cluster-close-error")
+		}
+	}
+}
+
 // ---------------------------------------------------------------- case
 
 func execute(sc Script, rep *kit.Report) (err error) {
@@ -1093,11 +1153,7 @@ func execute(sc Script, rep *kit.Report) (err error) {
 	}
 	rep.Class(fmt.Sprintf("nodes-%d", sc.N))
 	s.cl = mock.NewCluster(cfgs...)
-	defer func() {
-		if cerr := s.cl.Close(); cerr != nil {
-			rep.Class("cluster-close-error")
-		}
-	}()
+	defer s.closeCluster()
 	provisioned := func() (ok bool) {
 		defer func() {
 			if p := recover(); p != nil {
